@@ -84,7 +84,10 @@ StarLabels(x, st, tree) ==
       may(i)  == i # par /\ i \in 1 .. n /\ st.inr[i] # 0 /\ st.rws[i] # 0
   IN IF par \notin 1 .. n THEN {"C15/parents"}
      ELSE  L(~maycand(par), "C17/best-parent")
-      \cup L(\E i \in 1 .. n : cand(i) /\ st.orc[i] = 0 /\ st.ccr[i] < st.ccr[par], "C17/best-parent")
+      \* a certainly-free in-radius node that is strictly cheaper than the chosen parent, or: whichever
+      \* nearest node the implementation extended from (ties: any), it would have been cheaper
+      \cup L(\E i \in 1 .. n : st.inr[i] = 1 /\ st.orc[i] = 0 /\ st.ccr[i] < st.ccr[par], "C17/best-parent")
+      \cup L(\A m \in {m \in 1 .. n : x.dr[m] = minr} : st.ccr[m] < st.ccr[par], "C17/best-parent")
       \cup L(~st.ceq, "C17/cost-eq")
       \cup L(~CoversPos(st.pcov, st.plen, hdr.lvs, tol), "C03/coverage[parent]")
       \cup L(st.pstep > Max2(hdr.maxd, hdr.rad) + tol, "C05/edge-length")
@@ -208,7 +211,10 @@ PSampleLabels(e, accNew) ==
  \cup L(e.q # 0 /\ e.valid /\ ~e.pushed, "C18/milestones")
  \cup L(e.pushed /\ ~e.valid, "C18/milestones")
 
+ \* C05 bounds a link by the radius; C18 wants it strictly closer (on a lattice equality is exact)
  \cup L(\E j \in 1 .. Len(e.links) : e.links[j].linked /\ e.links[j].inr = 0, "C05/edge-length")
+ \cup L(\E j \in 1 .. Len(e.links) : e.links[j].linked /\ (e.links[j].inr = 0 \/ (e.links[j].inr = 2 /\ hdr.mode = "lattice")),
+        "C18/edge-justified")
  \cup L(\E j \in 1 .. Len(e.links) : e.links[j].linked /\ e.links[j].orc = 1, "C18/edge-justified")
  \cup L(\E j \in 1 .. Len(e.links) : e.links[j].linked
             /\ ~CoversPos(e.links[j].cov, e.links[j].len, hdr.lvs, tol), "C03/coverage[link]")
